@@ -1,5 +1,5 @@
 """run one engine-L kernel obligation in its own process: python3-vt run_spec.py <ll> <repo> <replay exe> <spec> <seed> <b1,b2>"""
-import sys, os, json, time
+import sys, os, json, time, subprocess
 sys.path.insert(0, os.path.dirname(os.path.abspath(__file__)))
 import kernels
 from kernels import *
@@ -9,6 +9,31 @@ e = L(ll, repo, int(seed))
 out = []
 if name == 'L-const':
     res = const_obligations(e.consts)
+elif name.startswith('L-divrem-'):
+    which = name[len('L-divrem-'):]
+    rr_ = unlimbs(e.consts['FR'])
+    m = {'q': unlimbs(e.consts['FQ']), 'r': rr_, 'r-1': rr_ - 1}[which]
+    r = divrem_obligation(e.mod, e.consts, which, m, int(budgets.split(',')[0]) * 2, int(seed))
+    if r.status == 'sat':
+        # replay: make the refuted step reachable - the dividend starts with the model's remainder
+        w = r.model or {}
+        cands = []
+        if w:
+            R0, X0, n0 = int(w['r'], 16), int(w['x'], 16), w['n']
+            cands = [X0, (R0 << min(n0, 256)) | (X0 & ((1 << min(n0, 256)) - 1))]
+        import random
+        rnd = random.Random(3)
+        cands += [m, m - 1, m + 1, 2 * m, m * m - 1, (1 << 512) - 1, (m << 256) - 1, (m - 1) * (1 << 256) + (1 << 256) - 1] + [rnd.randrange(1 << 512) for _ in range(4)]
+        r.status = 'inconclusive'
+        for X in cands:
+            X %= 1 << 512
+            o = subprocess.run([exe, '--divrem', '%0128x' % X, '%064x' % m], capture_output=True, text=True, timeout=60).stdout.strip()
+            if o and int(o, 16) != X % m:
+                r.status = 'violated'
+                r.model = dict(op='divrem', inputs=[X, m], native=int(o, 16), expected=X % m)
+                r.detail = 'native replay reproduces: divrem(%x, %s).1 = %s, expected %x' % (X, which, o, X % m)
+                break
+    res = [r]
 else:
     sp = [s for s in all_specs() if s.name == name][0]
     e.obligation(sp, [int(b) for b in budgets.split(',')])
